@@ -25,8 +25,8 @@
 EXTENDS Layout
 
 Crossings == {"rust_arg", "rust_ret", "host_arg", "host_ret", "ctx", "const"}
-ScriptOps == {"construct", "match", "select"}
-Routes    == {"id", "hecho", "hmeth", "hgive", "const", "ctx", "build", "buildf", "match", "pick", "hpick"}
+ScriptOps == {"construct", "match", "select", "index"}
+Routes    == {"id", "hecho", "hmeth", "hgive", "const", "ctx", "build", "buildf", "match", "index", "pick", "hpick"}
 
 (* ---- value classes of the leaves (the harness maps a class to a concrete value) -------- *)
 ClassSeq(l) ==
@@ -79,6 +79,8 @@ Hops(c) ==
        (* build: Option.Some(x) / Result.Err(e) / Verdict.Accept(x) / [x, ..]; buildf: `accept x` / `reject e` *)
        [] c.route \in {"build", "buildf"} -> (IF payload THEN <<"host_ret">> ELSE <<>>) \o <<"construct", "rust_ret">>
        [] c.route = "match" -> <<"rust_arg", "match">> \o (IF payload THEN <<"host_arg">> ELSE <<>>)
+       (* index: Rust builds a list, the script takes element k - 1 out of it (`l.get(k - 1)`) *)
+       [] c.route = "index" -> <<"rust_arg", "index">> \o (IF c.k <= Len(v.e) THEN <<"host_arg">> ELSE <<>>)
        [] c.route = "pick"  -> <<"rust_arg", "select", "rust_ret">>
        [] c.route = "hpick" -> <<"host_ret", "host_arg", "select", "host_ret", "rust_ret">>
 
@@ -125,6 +127,11 @@ Step(c, h, cur) ==
          IF IsList(t) THEN [cur |-> [ts |-> [i \in 1..Len(d.e) |-> t[2]], vs |-> d.e], obs |-> <<CodeO(Len(d.e))>>]
          ELSE IF HasPayload(t, d) THEN [cur |-> [ts |-> <<PayloadType(t, d)>>, vs |-> <<d.p>>], obs |-> <<CodeO(Tag(t, d))>>]
          ELSE [cur |-> [ts |-> <<>>, vs |-> <<>>], obs |-> <<CodeO(Tag(t, d))>>]
+    [] h = "index" ->
+         (* the script addresses element k of the list's storage: element size = CLayout of the element type *)
+         LET d == Deliver(t, cur.vs[1]) IN
+         IF c.k <= Len(d.e) THEN [cur |-> [ts |-> <<t[2]>>, vs |-> <<Deliver(t[2], d.e[c.k])>>], obs |-> <<CodeO(1)>>]
+         ELSE [cur |-> [ts |-> <<>>, vs |-> <<>>], obs |-> <<CodeO(0)>>]
     [] h = "select" ->
          [cur |-> [ts |-> <<cur.ts[c.k]>>, vs |-> <<cur.vs[c.k]>>], obs |-> <<>>]
 
@@ -157,6 +164,7 @@ ExpectedObs(c) ==
        [] c.route = "match" ->
             IF IsList(t) THEN <<CodeO(Len(v.e))>> \o v.e
             ELSE <<CodeO(Tag(t, v))>> \o (IF HasPayload(t, v) THEN <<v.p>> ELSE <<>>)
+       [] c.route = "index" -> IF c.k <= Len(v.e) THEN <<CodeO(1), v.e[c.k]>> ELSE <<CodeO(0)>>
        [] c.route = "pick"  -> <<c.vals[c.k]>>
        [] c.route = "hpick" -> <<ArgsO(c.vals), c.vals[c.k]>>
 
@@ -167,7 +175,8 @@ InFlightUnchanged ==
      \/ cfg.route \notin {"pick", "hpick"} /\
           LET v == Sent(cfg) IN
             \/ cur.vs[i] = v
-            \/ IsList(TypeOf(cfg)) /\ cur.vs[i] = v.e[i]
+            \/ IsList(TypeOf(cfg)) /\ cfg.route # "index" /\ cur.vs[i] = v.e[i]
+            \/ cfg.route = "index" /\ cur.vs[i] = v.e[cfg.k]
             \/ IsEnum(TypeOf(cfg)) /\ HasPayload(TypeOf(cfg), v) /\ cur.vs[i] = v.p
 
 ReceivedIsSent == Done => obs = ExpectedObs(cfg)
